@@ -20,7 +20,7 @@ import (
 
 func init() {
 	Register(&Property{ID: "C03", Run: runC03,
-		Rule: "one real engine; phase 1 builds a send history of 5-60 numbers (application messages with and without repeating/nested groups, with and without FIX42/FIX44 dictionaries; heartbeats, rejects, test requests, logons after reconnects; messages sent while disconnected); phase 2 sends 3-10 ResendRequests with ranges inside/empty/inverted/beyond the end/0 and 999999 end markers/single/whole; application refusing a hash-chosen subset on resend; persistence on/off; memory/file/SQL stores; histories of 110-310 numbers in a share of the runs; BeginSeqNo 0; faults: disk write/sync errors (also short writes) inside saves with the file store, store read error after k messages of the range. Non-trivial: a reply contained both a resent application message and a gap fill; distinct: canonical trace hash"})
+		Rule: "one real engine; phase 1 builds a send history of 5-60 numbers (application messages with and without repeating/nested groups, with and without FIX42/FIX44 dictionaries; heartbeats, rejects, test requests, logons after reconnects; messages sent while disconnected); phase 2 sends 3-10 ResendRequests with ranges inside/empty/inverted/beyond the end/0 and 999999 end markers/single/whole; application refusing a hash-chosen subset on resend; persistence on/off; memory/file/SQL stores; histories of 110-310 numbers in a share of the runs; BeginSeqNo 0; faults: disk write/sync errors (also short writes) inside saves with the file store, store read error after k messages of the range; RawData fields containing the delimiter; the operator moving the next outbound number forward (numbers used up without stored messages). Non-trivial: a reply contained both a resent application message and a gap fill; distinct: canonical trace hash"})
 }
 
 func c03Body(c EngineCfg, id string, variant int) *quickfix.Message {
